@@ -352,8 +352,12 @@ def consensus_lane(st, rng, n):
             if what in ("height", "data") and isinstance(i0.signature, sg.CoinbaseData):
                 cd = i0.signature
                 other = cd.signature + b"\x01" if len(cd.signature) < 200 else cd.signature[:-1] + bytes([cd.signature[-1] ^ 1])
-                ins[0] = dt.Input(i0.output_reference, sg.CoinbaseData(cd.height + 1, cd.signature) if what == "height"
-                                  else sg.CoinbaseData(cd.height, other))
+                try:
+                    ins[0] = dt.Input(i0.output_reference, sg.CoinbaseData(cd.height + 1 if cd.height < 0xFFFFFFFF else cd.height - 1,
+                                                                           cd.signature) if what == "height"
+                                      else sg.CoinbaseData(cd.height, other))
+                except Exception:
+                    continue
             elif what == "index":
                 ins[0] = dt.Input(dt.OutputReference(i0.output_reference.hash, (i0.output_reference.index + 1) & 0xFFFFFFFF), i0.signature)
             elif what == "ref-bit":
